@@ -23,6 +23,13 @@ PacketAxes == << [n |-> "type", v |-> <<"STAT", "REQ", "DATA", "FIN", "ERR", "un
                  [n |-> "stat", v |-> <<"nil", "zero", "full">>],
                  [n |-> "id", v |-> <<"zero", "max">>],
                  [n |-> "data", v |-> <<"nil", "empty", "one", "big40000">>] >>
+\* length-delimited positions of the NESTED messages (Packet.stat -> Stat -> xattrs entry -> key / value) with a
+\* claimed length that is exact, off by one, or far beyond the input, followed by 0 / 1 / 5 bytes, bare or wrapped
+\* in the enclosing message(s) with correct lengths
+NestedAxes == << [n |-> "pos", v |-> <<"packet.stat", "packet.data", "stat.path", "stat.linkname", "stat.xattrs", "xattr.key", "xattr.value">>],
+                 [n |-> "claim", v |-> <<"exact", "plus1", "p16", "p26", "p31m1", "p40", "p50", "p62", "p63m1", "p64m1">>],
+                 [n |-> "tail", v |-> <<"0", "1", "5">>],
+                 [n |-> "wrap", v |-> <<"bare", "inPacket">>] >>
 TokenList == <<"tag1v", "tag1l", "tag2l", "tag2v", "tag3v", "tag3l", "tag4l", "tag9l", "tag0v", "tagG3", "tagE4", "tag1f32", "tag2f64",
                "v0", "v1", "v2byte", "v10max", "v10over", "v11long", "len0", "len1", "len5", "lenHuge31", "lenHuge63",
                "b1", "b5", "bFF">>
@@ -38,7 +45,8 @@ B == Len(TokenList)
 Str(L, i) == [t |-> [j \in 1..L |-> TokenList[(((i - 1) \div (B ^ (L - j))) % B) + 1]]]
 StrsOfLen(L) == TLCEval([i \in 1..(B ^ L) |-> Str(L, i)])
 
-ASSUME PrintT(<<"stat classes", Total(StatAxes), "packet classes", Total(PacketAxes), "token alphabet", B, "max tokens", MaxTokens>>)
+ASSUME PrintT(<<"stat classes", Total(StatAxes), "packet classes", Total(PacketAxes), "nested length cases", Total(NestedAxes), "token alphabet", B, "max tokens", MaxTokens>>)
+ASSUME ndJsonSerialize(IOEnv.VERIF_GEN_DIR \o "/nested.ndjson", AllVecs(NestedAxes))
 ASSUME ndJsonSerialize(IOEnv.VERIF_GEN_DIR \o "/statclasses.ndjson", AllVecs(StatAxes))
 ASSUME ndJsonSerialize(IOEnv.VERIF_GEN_DIR \o "/packetclasses.ndjson", AllVecs(PacketAxes))
 \* one file per length
